@@ -391,7 +391,42 @@ const INT_TYPES: [(&str, i128, i128); 8] = [
     ("i64", -9223372036854775808, 9223372036854775807),
 ];
 
+/// A literal of a signed type under unary minus: `-128i8`, `-32_768`, `-1i64`. The literal
+/// token carries no sign, so its magnitude may be one above the type's maximum exactly when
+/// it is negated (the minimum of the type); the value is the negated magnitude.
+fn negated_int_literal(rng: &mut Rng) -> LitCase {
+    let (ty, lo, hi) = INT_TYPES[4 + rng.usize(4)];
+    let mag: i128 = match rng.below(6) {
+        0 | 1 => -lo, // the minimum of the type: magnitude hi + 1
+        2 => hi,
+        3 => 1,
+        4 => -lo - 1,
+        _ => (rng.next() as i128).rem_euclid(-lo + 1),
+    };
+    let suffix = rng.bool();
+    let digits = digits_with_underscores(rng, &mag.to_string());
+    let spelling = if suffix { format!("-{digits}{ty}") } else { format!("-{digits}") };
+    // (the minimum of i64 has a magnitude that no i64 holds: its own class)
+    let class = match (suffix, mag == -lo, ty == "i64") {
+        (true, true, false) => "int:negated-suffix-minimum",
+        (true, true, true) => "int:negated-suffix-minimum-of-i64",
+        (true, false, _) => "int:negated-suffix",
+        (false, true, false) => "int:negated-bare-minimum",
+        (false, true, true) => "int:negated-bare-minimum-of-i64",
+        (false, false, _) => "int:negated-bare",
+    };
+    let src = match rng.below(3) {
+        0 => format!("fn main() -> {ty} {{\n    {spelling}\n}}\n"),
+        1 => format!("fn main() -> {ty} {{\n    let x: {ty} = {spelling};\n    x\n}}\n"),
+        _ => format!("fn id(x: {ty}) -> {ty} {{\n    x\n}}\n\nfn main() -> {ty} {{\n    id({spelling})\n}}\n"),
+    };
+    LitCase { class, ty: ty.to_string(), src, expect: Expect::Int(-mag), spelling }
+}
+
 fn int_literal(rng: &mut Rng) -> LitCase {
+    if rng.chance(1, 4) {
+        return negated_int_literal(rng);
+    }
     let (ty, _lo, hi) = INT_TYPES[rng.usize(8)];
     // magnitudes: edges and random; literals themselves are non-negative
     let v: i128 = match rng.below(6) {
